@@ -456,6 +456,10 @@ class Interp(object):
         return self.getattr(v, e.attr, e, env)
 
     def getattr(self, v, attr, node, env):
+        for h_ in ATTR_HOOKS:
+            r_ = h_(self, v, attr, node, env)
+            if r_ is not NotImplemented:
+                return r_
         if isinstance(v, Obj):
             if v.kind == 'pa':
                 return self.pa_attr(v, attr)
@@ -784,6 +788,10 @@ class Interp(object):
         elif isinstance(s, ast.While):
             raise Unsupported('while loop')
         elif isinstance(s, ast.With):
+            for it_ in s.items:
+                cv = self.ev(it_.context_expr, env)
+                if it_.optional_vars is not None:
+                    self.bind(it_.optional_vars, cv, env)
             self.block(s.body, env)
         else:
             raise Unsupported('statement %s' % type(s).__name__)
@@ -799,6 +807,8 @@ class Interp(object):
                 self.bind(x, y, env)
         elif isinstance(t, ast.Attribute):
             o = self.ev(t.value, env)
+            if any(h_(self, o, t.attr, v) for h_ in STORE_HOOKS):
+                return
             if isinstance(o, Obj):
                 if o.kind == 'pa':
                     return
@@ -977,7 +987,7 @@ def _isinstance(interp, args, kwargs, node, env):
     names = set()
     for x in ts:
         names.add((getattr(x, '__name__', None) or (x.node.name if isinstance(x, ClassRef) else key_of(x))).lstrip('_'))
-    py = {'dict': dict, 'list': list, 'tuple': tuple, 'set': set, 'str': str, 'int': int, 'float': float, 'bool': bool}
+    py = {'dict': dict, 'list': list, 'tuple': tuple, 'set': set, 'str': str, 'int': int, 'float': float, 'bool': bool, 'bytes': bytes, 'frozenset': frozenset}
     for nme in names:
         if nme in py and isinstance(v, py[nme]):
             return True
@@ -1087,3 +1097,5 @@ BUILTINS = {'list': _list, 'set': _set, 'tuple': _tuple, 'dict': _dict, 'isinsta
             'True': True, 'False': False, 'None': None, 'object': Opaque('object'), 'RuntimeError': Opaque('RuntimeError'), 'ValueError': Opaque('ValueError'),
             'NotImplementedError': Opaque('NotImplementedError'), 'KeyError': Opaque('KeyError'), 'TypeError': Opaque('TypeError')}
 EXTERNAL_CALLS = {}
+ATTR_HOOKS = []      # (interp, value, attr, node, env) -> value or NotImplemented: attribute access on model objects of plug-in models
+STORE_HOOKS = []     # (interp, value, attr, new) -> True when the store was handled
